@@ -16,7 +16,8 @@ CONSTANTS U,          \* universe selector: "A" (timing/policy), "B" (failover)
           ReportSet,  \* issues the environment may report in this configuration
           BadSet,     \* path ids a lookup may also return as an object the policies reject (no / changed metadata)
           B1, B2, B3, \* backoff durations after 1, 2, >= 3 consecutive failures
-          GEN
+          GEN,
+          ViewDepth   \* 1 or 2: how many trailing steps distinguish histories in generation mode
 
 VARIABLES h,         \* history (hidden from the fingerprint by VIEW)
           lastAct    \* the last step taken; part of the view in generation mode only, so that one history is printed
@@ -67,9 +68,12 @@ Proj == [now |-> now, alive |-> alive,
          active |-> active, nr |-> nextRefetch, ni |-> nextIdle, failed |-> failed, used |-> used,
          imap |-> MapSize(imap), ififo |-> Len(fifo), pend |-> (chan # <<>> \/ lag), nm |-> NextMaintain, out |-> out]
 
-Step(a) == h' = Append(h, [a |-> a, s |-> Proj']) /\ lastAct' = a
+\* lastAct: the last ViewDepth steps (ViewDepth = 2 also separates histories in which a step that is a no-op in the
+\* spec - e.g. a duplicate report - is followed by another step: the code may have changed hidden state)
+Step(a) == /\ h' = Append(h, [a |-> a, s |-> Proj'])
+           /\ lastAct' = IF ViewDepth = 1 THEN <<a>> ELSE <<lastAct[Len(lastAct)], a>>
 
-MCInit == Init /\ h = <<>> /\ lastAct = [a |-> "init"]
+MCInit == Init /\ h = <<>> /\ lastAct = <<[a |-> "init"]>>
 Bounded == Len(h) < Depth
 MCTick    == Bounded /\ \E f \in FetchOutcomes \cup {[k |-> "na"]} : Tick(f) /\ Step([a |-> "tick", fetch |-> f])
 MCReport  == Bounded /\ \E i \in ReportSet : Report(i) /\ Step([a |-> "report", i |-> i])
